@@ -550,6 +550,8 @@ class Evaluator:
             return list(it.items)
         if isinstance(it, type({}.keys())) or isinstance(it, type({}.values())) or isinstance(it, type({}.items())):
             return list(it)
+        if isinstance(it, Obj) and (it.kind, "__iter__") in self.method_models:
+            return list(self.method_models[(it.kind, "__iter__")](self, it, [], {}, node))
         raise Unmodelled(f"iteration over {it!r}", node)
 
     # ------------------------------------------------------------------ expressions
